@@ -84,6 +84,27 @@ class Env(object):
                 def __call__(self, *a, **kw):
                     return env.core(*a, **kw)
             return Obj()
+        if self.kind == "object_attrs":
+            env = self
+
+            class Wrapper(object):
+                """a decorator-style callable object carrying attributes of its own"""
+
+                def __init__(self):
+                    self._fn = "wrapper's own _fn"
+                    self._executor = "wrapper's own _executor"
+                    self._name = "wrapper-name"
+                    self._delegate = None
+                    self.calls = 0
+
+                def __call__(self, *a, **kw):
+                    self.calls += 1
+                    return env.core(*a, **kw)
+            return Wrapper()
+        if self.kind == "rebound":
+            # a callable that is itself the bound callable of another executor (its result is a future)
+            inner = self.ctx.own(self.ME.Executors.sync(name="inner"))
+            return inner.bind(self.core)
         return self.core
 
     def note(self, name):
@@ -211,7 +232,7 @@ def run_diff(case, res):
     for it in range(case["n"]):
         chain = gen_chain(rng)
         base = rng.choice(["sync", "sync", "pool"])
-        kind = rng.choice(["function", "partial", "object", "future"])
+        kind = rng.choice(["function", "partial", "object", "future", "object_attrs", "rebound"])
         script = [rng.choice(["A", "B"]) for _ in range(rng.choice([0, 0, 1, 2]))] + [rng.choice(["ret", "ret", "ret", "A"])]
         args = tuple(rng.choice([1, "s", None, (2, 3)]) for _ in range(rng.randint(0, 3)))
         kwargs = {k: rng.randint(0, 9) for k in rng.sample(["x", "y"], rng.randint(0, 2))}
@@ -326,7 +347,13 @@ def run_names(case, res):
             bind_at = rng.choice([None, None] + list(range(len(chain) + 1)))
             flat = rng.random() < 0.5
             kw = {"name": base_name} if base_name else {}
-            cur = ctx.own(ME.Executors.sync(**kw) if base_kind == "sync" else ME.Executors.thread_pool(max_workers=1, **kw))
+            spelling = rng.choice(["keyword", "positional"])
+            if base_kind == "sync":
+                cur = ctx.own(ME.Executors.sync(**kw))
+            elif spelling == "keyword":
+                cur = ctx.own(ME.Executors.thread_pool(max_workers=1, **kw))
+            else:
+                cur = ctx.own(ME.Executors.thread_pool(1, **kw))
             expect = base_name or "default"
             env = Env(ctx, "sync", ["ret"], "function")
             created = []
@@ -336,6 +363,17 @@ def run_names(case, res):
                     if flat:
                         cur = cur.flat_bind(lambda: ME.futures.f_return(1))
                         desc.append("bind(flat)")
+                    elif rng.random() < 0.4:
+                        class Named(object):
+                            _name = "callable-own-name"
+
+                            def __init__(self):
+                                self._name = "callable-own-name"
+
+                            def __call__(self):
+                                return 1
+                        cur = cur.bind(Named())
+                        desc.append("bind(object with _name)")
                     else:
                         cur = cur.bind(lambda: 1)
                         desc.append("bind")
